@@ -127,3 +127,33 @@ pub fn expected_outline(tw: &TempWs, texts: &BTreeMap<String, String>, root: &st
 pub fn outline_names(v: &Value) -> Value {
     json!({"name": v["name"], "children": v["children"].as_array().map(|c| c.iter().map(outline_names).collect::<Vec<_>>()).unwrap_or_default()})
 }
+
+/// Compares what the server last published / answers for documentSymbol with a fresh ide-level
+/// analysis over `model` (name -> text) rooted at `root`. Ok(()) or Err((what, detail)); Err with
+/// what == "" means inconclusive (no response).
+pub fn compare_with_fresh(s: &mut LspSession, model: &BTreeMap<String, String>, root: &str) -> Result<(), (String, String)> {
+    let expected = expected_diagnostics(&s.tw, model, root);
+    let published = s.c.last_diagnostics();
+    for (uri, want) in &expected {
+        let got = published.get(uri).map(|x| x.1.clone());
+        if got.as_ref() != Some(want) {
+            let which = if uri.ends_with(root) { "root" } else { "included" };
+            return Err((format!("diagnostics:{which}"), format!("diagnostics of {uri}: {got:?}; a fresh analysis of the current texts (root {root}) gives {want:?}")));
+        }
+    }
+    for open in s.opened.clone() {
+        let uri = s.tw.uri(&open);
+        if !expected.contains_key(&uri) {
+            continue;
+        }
+        let want = expected_outline(&s.tw, model, root, &open);
+        let r = s.c.request("textDocument/documentSymbol", json!({"textDocument": {"uri": uri}}), Duration::from_secs(30));
+        let Ok(r) = r else { return Err((String::new(), "no response".into())) };
+        let got = r["result"].as_array().map(|v| v.iter().map(outline_names).collect::<Vec<_>>());
+        let norm = |o: Option<Vec<Value>>| o.filter(|v| !v.is_empty());
+        if norm(got.clone()) != norm(want.clone()) {
+            return Err(("outline".into(), format!("outline of open document {open}: {got:?}; a fresh analysis of the current texts (root {root}) gives {want:?}")));
+        }
+    }
+    Ok(())
+}
